@@ -19,6 +19,7 @@ import (
 	"os"
 	"sort"
 	"strings"
+	"sync"
 	"time"
 
 	"perkeep.org/pkg/blob"
@@ -161,6 +162,8 @@ type replay struct {
 var (
 	out05, out06 *bufio.Writer
 	do05, do06   bool
+	conc         int
+	emitMu       sync.Mutex
 )
 
 func emit(w *bufio.Writer, ev gate.Event) {
@@ -168,8 +171,10 @@ func emit(w *bufio.Writer, ev gate.Event) {
 	if err != nil {
 		fatal(err)
 	}
+	emitMu.Lock()
 	w.Write(b)
 	w.WriteByte('\n')
+	emitMu.Unlock()
 }
 
 func main() {
@@ -182,6 +187,7 @@ func main() {
 	flag.BoolVar(&do05, "do05", true, "record the C05 trace (state after every step)")
 	flag.BoolVar(&do06, "do06", true, "record the C06 trace (live vs reloaded after every step)")
 	scratch := flag.String("scratch", "", "scratch dir")
+	flag.IntVar(&conc, "conc", 0, "C14: deliver every replay's order from this many goroutines at once while another goroutine queries index and corpus; one state line and one live-vs-reloaded line at quiescence")
 	flag.Parse()
 	log.SetOutput(io.Discard)
 	shs := shapes()
@@ -298,6 +304,9 @@ func run(s *shape, r *replay, n int, kvKind, scratch string) error {
 		"order": ints(r.Order), "restart": r.Restart, "kv": kvKind})
 	emit(out06, gate.Event{"ev": "reset", "replay": n, "shape": s.Name, "order": ints(r.Order), "restart": r.Restart, "kv": kvKind})
 	delivered := map[int]bool{}
+	if conc > 0 {
+		return runConc(s, r, e, delivered)
+	}
 	for i, id := range r.Order {
 		if r.Restart > 0 && i == r.Restart {
 			e.Await()
@@ -351,6 +360,81 @@ func run(s *shape, r *replay, n int, kvKind, scratch string) error {
 			"ndiff": len(diff), "classes": cls, "diff": firstN(diff, 6), "queries": len(live)})
 	}
 	e.Await()
+	if !do05 {
+		return nil
+	}
+	return project(s, e, delivered, true)
+}
+
+// runConc: the arrival order is dealt round-robin to conc goroutines that deliver at the same time (each keeps its
+// own sub-order) while a reader goroutine runs the query battery in a loop; at quiescence the index must be in the
+// state the C05 predicate demands for the delivered set, and live == reloaded (C06).
+func runConc(s *shape, r *replay, e *idx.Env, delivered map[int]bool) error {
+	b := s.B
+	var wg sync.WaitGroup
+	for g := 0; g < conc; g++ {
+		wg.Add(1)
+		go func(g int) {
+			defer wg.Done()
+			for i := g; i < len(r.Order); i += conc {
+				id := r.Order[i]
+				if err := e.Deliver(b, id); err != nil {
+					emit(out05, gate.Event{"ev": "deliver", "b": id, "res": "err", "detail": err.Error()})
+				} else {
+					emit(out05, gate.Event{"ev": "deliver", "b": id, "res": "ok"})
+				}
+			}
+		}(g)
+	}
+	stop := make(chan struct{})
+	var rg sync.WaitGroup
+	rg.Add(1)
+	go func() {
+		defer rg.Done()
+		for {
+			select {
+			case <-stop:
+				return
+			default:
+			}
+			batteryL(e, b, true)
+		}
+	}()
+	wg.Wait()
+	close(stop)
+	rg.Wait()
+	e.Await()
+	for _, id := range r.Order {
+		delivered[id] = true
+	}
+	if do06 {
+		fresh, err := idx.New(e.KV, e.Src, true)
+		if err != nil {
+			return fmt.Errorf("reopen for comparison: %v", err)
+		}
+		live, reload := battery(e, b), battery(fresh, b)
+		var diff []any
+		for _, k := range keysOf(live, reload) {
+			if live[k] != reload[k] {
+				diff = append(diff, []any{k, live[k], reload[k]})
+			}
+		}
+		if diff == nil {
+			diff = []any{}
+		}
+		cls := []any{}
+		seen := map[string]bool{}
+		for _, d := range diff {
+			c := strings.SplitN(d.([]any)[0].(string), "(", 2)[0]
+			if !seen[c] {
+				seen[c] = true
+				cls = append(cls, c)
+			}
+		}
+		last := r.Order[len(r.Order)-1]
+		emit(out06, gate.Event{"ev": "step", "i": len(r.Order) - 1, "b": last, "kind": "concurrent", "equal": len(diff) == 0,
+			"ndiff": len(diff), "classes": cls, "diff": firstN(diff, 6), "queries": len(live)})
+	}
 	if !do05 {
 		return nil
 	}
@@ -494,7 +578,17 @@ func keysOf(a, b map[string]string) []string {
 
 // battery asks a fixed set of exported queries of index and corpus and renders the answers canonically,
 // with refs replaced by item ids.
-func battery(e *idx.Env, b *world.Built) map[string]string {
+func battery(e *idx.Env, b *world.Built) map[string]string { return batteryL(e, b, false) }
+
+// batteryL: with outer = true the whole battery runs under one index read lock, as a search request does
+// (search.Handler takes index.RLock around a query); otherwise only the direct corpus calls are locked.
+func batteryL(e *idx.Env, b *world.Built, outer bool) map[string]string {
+	rl, ru := e.Ix.RLock, e.Ix.RUnlock
+	if outer {
+		e.Ix.RLock()
+		defer e.Ix.RUnlock()
+		rl, ru = func() {}, func() {}
+	}
 	ctx := context.Background()
 	out := map[string]string{}
 	name := func(br blob.Ref) string {
@@ -526,18 +620,21 @@ func battery(e *idx.Env, b *world.Built) map[string]string {
 		}
 		out["ix.IsDeleted("+tag+")"] = fmt.Sprint(e.Ix.IsDeleted(br))
 		if c != nil {
+			rl() // the corpus is only safe under the index lock
 			if m, err := c.GetBlobMeta(ctx, br); err == nil {
 				out["c.GetBlobMeta("+tag+")"] = fmt.Sprintf("%d/%s", m.Size, m.CamliType)
 			} else {
 				out["c.GetBlobMeta("+tag+")"] = "err"
 			}
 			out["c.IsDeleted("+tag+")"] = fmt.Sprint(c.IsDeleted(br))
+			ru()
 		}
 		switch it.Kind {
 		case "permanode":
 			cls, err := e.Ix.AppendClaims(ctx, nil, br, "", "")
 			out["ix.AppendClaims("+tag+")"] = claimsStr(cls) + errS(err)
 			if c != nil {
+				rl()
 				cls, err := c.AppendClaims(ctx, nil, br, "", "")
 				out["c.AppendClaims("+tag+")"] = claimsStr(cls) + errS(err)
 				for _, attr := range []string{"title", "tag", "camliMember"} {
@@ -556,6 +653,7 @@ func battery(e *idx.Env, b *world.Built) map[string]string {
 				} else {
 					out["c.PermanodeAnyTime("+tag+")"] = "none"
 				}
+				ru()
 			}
 		case "file", "dir":
 			if fi, err := e.Ix.GetFileInfo(ctx, br); err == nil {
@@ -564,6 +662,7 @@ func battery(e *idx.Env, b *world.Built) map[string]string {
 				out["ix.GetFileInfo("+tag+")"] = "err"
 			}
 			if c != nil {
+				rl()
 				if fi, err := c.GetFileInfo(ctx, br); err == nil {
 					out["c.GetFileInfo("+tag+")"] = fmt.Sprintf("%s/%d/%s/%s", fi.FileName, fi.Size, fi.MIMEType, name(fi.WholeRef))
 				} else {
@@ -573,19 +672,22 @@ func battery(e *idx.Env, b *world.Built) map[string]string {
 				out["c.GetDirChildren("+tag+")"] = setStr(ch, name) + errS(err)
 				pd, err := c.GetParentDirs(ctx, br)
 				out["c.GetParentDirs("+tag+")"] = setStr(pd, name) + errS(err)
+				ru()
 			}
 		case "key":
 			id, err := e.Ix.KeyId(ctx, br)
 			out["ix.KeyId("+tag+")"] = id + errS(err)
 			if c != nil {
+				rl()
 				id, err := c.KeyId(ctx, br)
 				out["c.KeyId("+tag+")"] = id + errS(err)
+				ru()
 			}
 		}
 	}
 	if c != nil {
 		var ss []string
-		e.Ix.RLock()
+		rl()
 		c.EnumeratePermanodesCreated(func(m camtypes.BlobMeta) bool { ss = append(ss, name(m.Ref)); return true }, true)
 		out["c.EnumeratePermanodesCreated"] = strings.Join(ss, ",")
 		ss = nil
@@ -593,7 +695,7 @@ func battery(e *idx.Env, b *world.Built) map[string]string {
 		out["c.EnumeratePermanodesLastModified"] = strings.Join(ss, ",")
 		var all []string
 		c.EnumerateBlobMeta(func(m camtypes.BlobMeta) bool { all = append(all, name(m.Ref)+":"+string(m.CamliType)); return true })
-		e.Ix.RUnlock()
+		ru()
 		sort.Strings(all)
 		out["c.EnumerateBlobMeta"] = strings.Join(all, ",")
 	}
